@@ -267,6 +267,10 @@ func ConvertVersionedSchemas(schemas serviceSchemas) (*SchemaWithFederationInfo,
 						return nil, oops.Errorf("Field %s doesnt have an object name and service name", field.Name)
 					}
 					objName := names[1]
+					// The service's own name may contain the separator.
+					if strings.HasPrefix(field.Name, service+"_") {
+						objName = strings.TrimPrefix(field.Name, service+"_")
+					}
 					obj, ok := types[objName].(*graphql.Object)
 					if !ok {
 						return nil, oops.Errorf("Expected objectName %s on merged schema", objName)
